@@ -22,6 +22,7 @@ CLAIMED = {
  "C11": ("trace validation of recorded text against Render.tla (per-type templates instantiated with the contract's decoded values, branch conditions explicit; float tokens compared numerically; printed heading checked with fixed-point trig) by TLC", "7/C11"),
  "C16": ("TLC model checking of MC_Feed (line loop over a segmented byte stream with short/long gaps; invariants NoCrash, ExactlyOnceInOrder, AllProcessed) + schedules of the bounded model, malformed-line feeds and disconnect/reconnect runs executed against the real 1090 and radar (pty + guarded hook), judged by Trace_Feed", "7/C16"),
  "C17": ("TLC model checking of MC_RadarUI (handler tables, selection clamp at draw, bursts between draws, arrivals/expiry; invariants NoPanic, SelectionShown, property ViewOnly) + behaviours of the bounded model and random operator sessions driven through the real radar in a pty, hook events and session outcome judged by Trace_UI; CLI grid", "7/C17"),
+ "C18": ("trace validation of reconstructed screens (terminal model at hook frame markers) paired with the hook's per-aircraft data against Trace_Screen (titles, Airplanes rows, Stats totals tracked through the trace, Map label placement by the linear longitude scale, data unchanged by view actions) by TLC; MC_RadarUI property ViewOnly", "7/C18"),
 }
 NOT_YET = {}
 import subprocess
